@@ -1,1 +1,1196 @@
-//! (to be filled in)
+//! RefReader: an independent recursive-descent reader written from the documentation
+//! (DESIGN Appendix A), for all 1536 parser option sets. It answers Value | Error | Unspecified;
+//! oracles never compare against Unspecified.
+
+use crate::domains::{PO, KW_OCTO, KW_POSTFIX, KW_PREFIX};
+use crate::model::num::{expect, Expect};
+use crate::rv::{NumLit, RV};
+
+#[derive(Clone, Debug, PartialEq)]
+pub enum RR {
+    Value(RV),
+    Error,
+    Unspecified,
+}
+
+#[derive(Debug)]
+enum Stop {
+    Error,
+    Unspec,
+}
+
+type R<T> = Result<T, Stop>;
+
+pub fn is_trivia_byte(b: u8) -> bool {
+    matches!(b, b' ' | b'\t' | b'\r' | b'\n' | 0x0c)
+}
+
+pub fn is_delim(b: u8) -> bool {
+    is_trivia_byte(b) || matches!(b, b';' | b'(' | b')' | b'[' | b']' | b'"')
+}
+
+struct Rd<'a> {
+    s: &'a [u8],
+    i: usize,
+    po: &'a PO,
+}
+
+const CHAR_NAMES: &[(&str, char)] = &[
+    ("nul", '\0'),
+    ("alarm", '\x07'),
+    ("backspace", '\x08'),
+    ("tab", '\t'),
+    ("linefeed", '\n'),
+    ("newline", '\n'),
+    ("vtab", '\x0b'),
+    ("page", '\x0c'),
+    ("return", '\r'),
+    ("esc", '\x1b'),
+    ("space", ' '),
+    ("delete", '\x7f'),
+];
+
+fn is_ascii_initial(b: u8) -> bool {
+    b.is_ascii_alphabetic() || b"!$%&*/:<=>?@^_~".contains(&b)
+}
+
+#[derive(PartialEq, Clone, Copy)]
+enum IdClass {
+    Yes,
+    No,
+    /// contains scalars the documentation does not classify
+    Unknown,
+}
+
+/// Rule 9: identifier grammar (R7RS initial/subsequent, peculiar identifiers, Unicode-alphabetic
+/// scalars). `elisp_chars`: '?'-initial tokens are characters there, not identifiers.
+pub fn identifier_class(tok: &str, elisp_chars: bool) -> IdClass {
+    if tok.is_empty() {
+        return IdClass::No;
+    }
+    let chars: Vec<char> = tok.chars().collect();
+    let is_initial = |c: char| -> Option<bool> {
+        if c.is_ascii() {
+            Some(is_ascii_initial(c as u8))
+        } else if c.is_alphabetic() {
+            Some(true)
+        } else {
+            None
+        }
+    };
+    let is_subsequent = |c: char| -> Option<bool> {
+        if c.is_ascii() {
+            Some(is_ascii_initial(c as u8) || c.is_ascii_digit() || "+-.@".contains(c))
+        } else if c.is_alphabetic() {
+            Some(true)
+        } else {
+            None
+        }
+    };
+    let all_subsequent = |cs: &[char]| -> IdClass {
+        let mut r = IdClass::Yes;
+        for &c in cs {
+            match is_subsequent(c) {
+                Some(true) => {}
+                Some(false) => return IdClass::No,
+                None => r = IdClass::Unknown,
+            }
+        }
+        r
+    };
+    let sign_subsequent = |c: char| -> Option<bool> {
+        if c == '+' || c == '-' || c == '@' {
+            Some(true)
+        } else {
+            is_initial(c)
+        }
+    };
+    let c0 = chars[0];
+    if c0 == '?' && elisp_chars {
+        return IdClass::No;
+    }
+    if c0 == '+' || c0 == '-' {
+        if chars.len() == 1 {
+            return IdClass::Yes;
+        }
+        let c1 = chars[1];
+        if c1 == '.' {
+            // sign '.' dot-subsequent subsequent*
+            if chars.len() < 3 {
+                return IdClass::No;
+            }
+            let c2 = chars[2];
+            let ds = if c2 == '.' { Some(true) } else { sign_subsequent(c2) };
+            return match ds {
+                Some(true) => all_subsequent(&chars[3..]),
+                Some(false) => IdClass::No,
+                None => IdClass::Unknown,
+            };
+        }
+        return match sign_subsequent(c1) {
+            Some(true) => all_subsequent(&chars[2..]),
+            Some(false) => IdClass::No,
+            None => IdClass::Unknown,
+        };
+    }
+    if c0 == '.' {
+        if chars.len() == 1 {
+            return IdClass::No;
+        }
+        let c1 = chars[1];
+        let ds = if c1 == '.' { Some(true) } else { sign_subsequent(c1) };
+        return match ds {
+            Some(true) => all_subsequent(&chars[2..]),
+            Some(false) => IdClass::No,
+            None => IdClass::Unknown,
+        };
+    }
+    match is_initial(c0) {
+        Some(true) => all_subsequent(&chars[1..]),
+        Some(false) => IdClass::No,
+        None => IdClass::Unknown,
+    }
+}
+
+/// Rule 5: [sign] digit+ [ '.' digit+ ] [ (e|E) [sign] digit+ ]
+pub fn decimal_literal(tok: &str) -> Option<NumLit> {
+    let b = tok.as_bytes();
+    let mut i = 0;
+    let mut neg = false;
+    if i < b.len() && (b[i] == b'+' || b[i] == b'-') {
+        neg = b[i] == b'-';
+        i += 1;
+    }
+    let st = i;
+    while i < b.len() && b[i].is_ascii_digit() {
+        i += 1;
+    }
+    if i == st {
+        return None;
+    }
+    let int_digits = tok[st..i].to_string();
+    let mut frac = None;
+    if i < b.len() && b[i] == b'.' {
+        let fs = i + 1;
+        let mut j = fs;
+        while j < b.len() && b[j].is_ascii_digit() {
+            j += 1;
+        }
+        if j == fs {
+            return None;
+        }
+        frac = Some(tok[fs..j].to_string());
+        i = j;
+    }
+    let mut exp = None;
+    if i < b.len() && (b[i] == b'e' || b[i] == b'E') {
+        let mut j = i + 1;
+        let mut eneg = false;
+        if j < b.len() && (b[j] == b'+' || b[j] == b'-') {
+            eneg = b[j] == b'-';
+            j += 1;
+        }
+        let es = j;
+        while j < b.len() && b[j].is_ascii_digit() {
+            j += 1;
+        }
+        if j == es {
+            return None;
+        }
+        // saturate
+        let ds = tok[es..j].trim_start_matches('0');
+        let mag: i64 = if ds.len() > 15 { 1_000_000_000_000_000 } else { ds.parse().unwrap_or(0) };
+        exp = Some(if eneg { -mag } else { mag });
+        i = j;
+    }
+    if i != b.len() {
+        return None;
+    }
+    Some(NumLit { neg, radix: 10, int_digits, frac_digits: frac, exp })
+}
+
+/// [sign] digit-of-radix+
+fn radix_integer(tok: &str, radix: u32) -> Option<NumLit> {
+    let b = tok.as_bytes();
+    let mut i = 0;
+    let mut neg = false;
+    if i < b.len() && (b[i] == b'+' || b[i] == b'-') {
+        neg = b[i] == b'-';
+        i += 1;
+    }
+    if i == b.len() {
+        return None;
+    }
+    if !tok[i..].chars().all(|c| c.to_digit(radix).is_some()) {
+        return None;
+    }
+    Some(NumLit { neg, radix, int_digits: tok[i..].to_string(), frac_digits: None, exp: None })
+}
+
+fn number_value(lit: NumLit) -> R<RV> {
+    match expect(&lit) {
+        Expect::OutOfRange => Err(Stop::Error),
+        Expect::Band => Err(Stop::Unspec),
+        _ => Ok(RV::NumLit(lit)),
+    }
+}
+
+const UNSPEC_INNER: &[u8] = b"'`,|#";
+
+impl<'a> Rd<'a> {
+    fn peek(&self) -> Option<u8> {
+        self.s.get(self.i).copied()
+    }
+
+    fn skip_trivia(&mut self) {
+        while let Some(b) = self.peek() {
+            if is_trivia_byte(b) {
+                self.i += 1;
+            } else if b == b';' {
+                while let Some(c) = self.peek() {
+                    self.i += 1;
+                    if c == b'\n' {
+                        break;
+                    }
+                }
+            } else {
+                break;
+            }
+        }
+    }
+
+    /// maximal run of non-delimiter bytes starting at the current position
+    fn token_end(&self, from: usize) -> usize {
+        let mut j = from;
+        while j < self.s.len() && !is_delim(self.s[j]) {
+            j += 1;
+        }
+        j
+    }
+
+    fn scalar_at(&self, i: usize) -> R<(char, usize)> {
+        let b = *self.s.get(i).ok_or(Stop::Error)?;
+        let len = if b < 0x80 {
+            1
+        } else if (0xc2..=0xdf).contains(&b) {
+            2
+        } else if (0xe0..=0xef).contains(&b) {
+            3
+        } else if (0xf0..=0xf4).contains(&b) {
+            4
+        } else {
+            return Err(Stop::Error);
+        };
+        let bytes = self.s.get(i..i + len).ok_or(Stop::Error)?;
+        let st = std::str::from_utf8(bytes).map_err(|_| Stop::Error)?;
+        Ok((st.chars().next().unwrap(), len))
+    }
+
+    fn datum(&mut self, depth: usize) -> R<RV> {
+        self.skip_trivia();
+        let b = self.peek().ok_or(Stop::Error)?;
+        if depth > 100 {
+            return Err(Stop::Unspec);
+        }
+        match b {
+            b'(' => {
+                self.i += 1;
+                self.list(b')', depth + 1)
+            }
+            b'[' => {
+                self.i += 1;
+                if self.po.brackets == 0 {
+                    self.list(b']', depth + 1)
+                } else {
+                    self.vector(b']', depth + 1)
+                }
+            }
+            b')' | b']' => Err(Stop::Error),
+            b'"' => {
+                self.i += 1;
+                if self.po.string == 0 {
+                    self.r6rs_string()
+                } else {
+                    self.elisp_string()
+                }
+            }
+            b'\'' | b'`' | b',' => {
+                self.i += 1;
+                let name = match b {
+                    b'\'' => "quote",
+                    b'`' => "quasiquote",
+                    _ => {
+                        if self.peek() == Some(b'@') {
+                            self.i += 1;
+                            "unquote-splicing"
+                        } else {
+                            "unquote"
+                        }
+                    }
+                };
+                // the shorthand nests like a list (C03: "quote shorthands" are nesting constructs)
+                let inner = self.datum(depth + 1)?;
+                Ok(RV::list(vec![RV::sym(name), inner]))
+            }
+            b'#' => self.hash(depth),
+            b'?' if self.po.chr == 1 => self.elisp_char(),
+            _ => self.atom(),
+        }
+    }
+
+    fn list(&mut self, close: u8, depth: usize) -> R<RV> {
+        let mut items: Vec<RV> = Vec::new();
+        loop {
+            self.skip_trivia();
+            let b = self.peek().ok_or(Stop::Error)?;
+            if b == b')' || b == b']' {
+                if b != close {
+                    return Err(Stop::Error);
+                }
+                self.i += 1;
+                return Ok(RV::list(items));
+            }
+            // the dot token: a maximal token equal to "."
+            if b == b'.' && self.token_end(self.i) == self.i + 1 {
+                // glued to a following string?  `."` is not documented
+                if self.s.get(self.i + 1) == Some(&b'"') {
+                    return Err(Stop::Unspec);
+                }
+                self.i += 1;
+                if items.is_empty() {
+                    return Err(Stop::Error);
+                }
+                self.skip_trivia();
+                match self.peek() {
+                    None => return Err(Stop::Error),
+                    Some(b')') | Some(b']') => return Err(Stop::Error),
+                    _ => {}
+                }
+                let tail = self.datum(depth)?;
+                self.skip_trivia();
+                match self.peek() {
+                    Some(c) if c == close => {
+                        self.i += 1;
+                        return Ok(RV::append(items, tail));
+                    }
+                    _ => return Err(Stop::Error),
+                }
+            }
+            items.push(self.datum(depth)?);
+        }
+    }
+
+    fn vector(&mut self, close: u8, depth: usize) -> R<RV> {
+        let mut items: Vec<RV> = Vec::new();
+        loop {
+            self.skip_trivia();
+            let b = self.peek().ok_or(Stop::Error)?;
+            if b == b')' || b == b']' {
+                if b != close {
+                    return Err(Stop::Error);
+                }
+                self.i += 1;
+                return Ok(RV::Vector(items));
+            }
+            if b == b'.' && self.token_end(self.i) == self.i + 1 {
+                // a dot inside a vector is not documented syntax
+                return Err(Stop::Unspec);
+            }
+            items.push(self.datum(depth)?);
+        }
+    }
+
+    fn bytevector(&mut self) -> R<RV> {
+        // positioned after "#u8(" / "#vu8("
+        let mut out = Vec::new();
+        loop {
+            self.skip_trivia();
+            let b = self.peek().ok_or(Stop::Error)?;
+            if b == b')' {
+                self.i += 1;
+                return Ok(RV::Bytes(out));
+            }
+            if is_delim(b) {
+                return Err(Stop::Error);
+            }
+            let end = self.token_end(self.i);
+            let tok = &self.s[self.i..end];
+            if self.s.get(end) == Some(&b'"') {
+                return Err(Stop::Unspec);
+            }
+            if !tok.iter().all(|c| c.is_ascii_digit()) {
+                // signs, radix prefixes, fractions: not documented as octets; other tokens: error
+                let t = String::from_utf8_lossy(tok).to_string();
+                if decimal_literal(&t).is_some() || tok[0] == b'#' || tok[0] == b'+' || tok[0] == b'-' {
+                    return Err(Stop::Unspec);
+                }
+                if tok.iter().any(|c| UNSPEC_INNER.contains(c)) {
+                    return Err(Stop::Unspec);
+                }
+                return Err(Stop::Error);
+            }
+            let digits = std::str::from_utf8(tok).unwrap().trim_start_matches('0');
+            if digits.len() > 3 {
+                return Err(Stop::Error);
+            }
+            let v: u32 = if digits.is_empty() { 0 } else { digits.parse().unwrap() };
+            if v > 255 {
+                return Err(Stop::Error);
+            }
+            out.push(v as u8);
+            self.i = end;
+        }
+    }
+
+    fn hash(&mut self, depth: usize) -> R<RV> {
+        // at '#'
+        let start = self.i;
+        let next = self.s.get(start + 1).copied();
+        match next {
+            None => Err(Stop::Error),
+            Some(b'(') => {
+                self.i += 2;
+                self.vector(b')', depth + 1)
+            }
+            Some(b'\\') => {
+                self.i += 2;
+                self.r6rs_char()
+            }
+            _ => {
+                let end = self.token_end(start);
+                let tok = &self.s[start..end];
+                let follower = self.s.get(end).copied();
+                // byte vectors: "#u8" / "#vu8" immediately followed by '('
+                if (tok == b"#u8" || tok == b"#vu8") && follower == Some(b'(') {
+                    self.i = end + 1;
+                    return self.bytevector();
+                }
+                if tok == b"#u8" || tok == b"#vu8" {
+                    // prefix separated from its parenthesis: not documented
+                    return if follower.is_none() { Err(Stop::Error) } else { Err(Stop::Unspec) };
+                }
+                if tok[1..].iter().any(|c| UNSPEC_INNER.contains(c)) || follower == Some(b'"') {
+                    return Err(Stop::Unspec);
+                }
+                let t = match std::str::from_utf8(tok) {
+                    Ok(t) => t,
+                    Err(_) => return Err(Stop::Error),
+                };
+                self.i = end;
+                match t {
+                    "#t" => return Ok(RV::Bool(true)),
+                    "#f" => return Ok(RV::Bool(false)),
+                    "#nil" => return Ok(RV::Nil),
+                    _ => {}
+                }
+                if let Some(name) = t.strip_prefix("#:") {
+                    if self.po.kw & KW_OCTO == 0 {
+                        return Err(Stop::Error);
+                    }
+                    return match self.name_class(name) {
+                        IdClass::Yes => Ok(RV::kw(name)),
+                        _ => Err(Stop::Unspec),
+                    };
+                }
+                if let Some(name) = t.strip_prefix("#%") {
+                    if !self.po.racket {
+                        return Err(Stop::Error);
+                    }
+                    return match identifier_class(name, false) {
+                        IdClass::Yes => Ok(RV::sym(t)),
+                        _ => Err(Stop::Unspec),
+                    };
+                }
+                for (p, radix) in [("#b", 2u32), ("#o", 8), ("#x", 16)] {
+                    if let Some(rest) = t.strip_prefix(p) {
+                        return match radix_integer(rest, radix) {
+                            Some(lit) => number_value(lit),
+                            None => {
+                                if rest.is_empty() || rest == "+" || rest == "-" {
+                                    Err(Stop::Error)
+                                } else {
+                                    // e.g. #x1.5, #b102: malformed per the grammar
+                                    Err(Stop::Error)
+                                }
+                            }
+                        };
+                    }
+                }
+                if let Some(rest) = t.strip_prefix("#d") {
+                    return match decimal_literal(rest) {
+                        Some(lit) => number_value(lit),
+                        None => Err(Stop::Error),
+                    };
+                }
+                // "#t..." / "#f..." / "#nil..." longer forms, #e, #i, #!, #; ... : not documented
+                Err(Stop::Unspec)
+            }
+        }
+    }
+
+    /// Names usable in keyword / #% positions: rule 9, or digit-initial tokens where enabled.
+    fn name_class(&self, name: &str) -> IdClass {
+        if name.is_empty() {
+            return IdClass::Unknown;
+        }
+        let c = identifier_class(name, false);
+        if c == IdClass::Yes {
+            return IdClass::Yes;
+        }
+        IdClass::Unknown
+    }
+
+    fn r6rs_char(&mut self) -> R<RV> {
+        // positioned after "#\"
+        if self.peek().is_none() {
+            return Err(Stop::Error);
+        }
+        let (c, len) = self.scalar_at(self.i)?;
+        let after = self.i + len;
+        let end = self.token_end(after);
+        let tail = &self.s[after..end];
+        if tail.is_empty() {
+            self.i = after;
+            return Ok(RV::Char(c));
+        }
+        if tail.iter().any(|b| UNSPEC_INNER.contains(b)) || self.s.get(end) == Some(&b'"') {
+            return Err(Stop::Unspec);
+        }
+        if !c.is_ascii() {
+            // a non-ASCII scalar glued to further constituents: not documented
+            return Err(Stop::Unspec);
+        }
+        let tail_s = match std::str::from_utf8(tail) {
+            Ok(t) => t,
+            Err(_) => return Err(Stop::Unspec),
+        };
+        self.i = end;
+        if c == 'x' && tail_s.chars().all(|h| h.is_ascii_hexdigit()) {
+            let digits = tail_s.trim_start_matches('0');
+            if digits.len() > 6 {
+                return Err(Stop::Error);
+            }
+            let v = if digits.is_empty() { 0 } else { u32::from_str_radix(digits, 16).unwrap() };
+            return match char::from_u32(v) {
+                Some(ch) => Ok(RV::Char(ch)),
+                None => Err(Stop::Error),
+            };
+        }
+        let name = format!("{}{}", c, tail_s);
+        for (n, ch) in CHAR_NAMES {
+            if *n == name {
+                return Ok(RV::Char(*ch));
+            }
+        }
+        Err(Stop::Error)
+    }
+
+    fn elisp_char(&mut self) -> R<RV> {
+        // at '?'
+        self.i += 1;
+        if self.peek().is_none() {
+            return Err(Stop::Error);
+        }
+        let (c, len) = self.scalar_at(self.i)?;
+        self.i += len;
+        let ch = if c == '\\' {
+            if self.peek().is_none() {
+                return Err(Stop::Error);
+            }
+            let (e, elen) = self.scalar_at(self.i)?;
+            self.i += elen;
+            match e {
+                'a' => '\x07',
+                'b' => '\x08',
+                't' => '\t',
+                'n' => '\n',
+                'v' => '\x0b',
+                'f' => '\x0c',
+                'r' => '\r',
+                'e' => '\x1b',
+                's' => ' ',
+                'd' => '\x7f',
+                '\\' => '\\',
+                // control-character syntax: not printed by lexpr and not part of any property
+                '^' => return Err(Stop::Unspec),
+                'x' => {
+                    let st = self.i;
+                    while self.peek().map(|b| b.is_ascii_hexdigit()).unwrap_or(false) {
+                        self.i += 1;
+                    }
+                    if self.i == st {
+                        return Err(Stop::Unspec);
+                    }
+                    self.code_point(st, self.i, 16)?
+                }
+                '0'..='7' => {
+                    let st = self.i - 1;
+                    while self.peek().map(|b| (b'0'..=b'7').contains(&b)).unwrap_or(false) {
+                        self.i += 1;
+                    }
+                    if self.i - st > 3 {
+                        return Err(Stop::Unspec);
+                    }
+                    self.code_point(st, self.i, 8)?
+                }
+                'u' | 'U' => {
+                    let n = if e == 'u' { 4 } else { 8 };
+                    let st = self.i;
+                    for _ in 0..n {
+                        match self.peek() {
+                            Some(b) if b.is_ascii_hexdigit() => self.i += 1,
+                            _ => return Err(Stop::Unspec),
+                        }
+                    }
+                    self.code_point(st, self.i, 16)?
+                }
+                'N' => {
+                    if self.s.get(self.i..self.i + 3) != Some(b"{U+") {
+                        return Err(Stop::Unspec);
+                    }
+                    self.i += 3;
+                    let st = self.i;
+                    while self.peek().map(|b| b.is_ascii_hexdigit()).unwrap_or(false) {
+                        self.i += 1;
+                    }
+                    if self.i == st || self.peek() != Some(b'}') {
+                        return Err(Stop::Unspec);
+                    }
+                    let c = self.code_point(st, self.i, 16)?;
+                    self.i += 1;
+                    c
+                }
+                // meta / control / shift modifiers and friends: not documented for lexpr
+                'M' | 'C' | 'S' | 'H' | 'A' => return Err(Stop::Unspec),
+                other => {
+                    if other.is_ascii_alphanumeric() || other.is_ascii_control() || other == ' ' {
+                        return Err(Stop::Unspec);
+                    }
+                    other
+                }
+            }
+        } else {
+            if "()[];\"".contains(c) || c.is_ascii_control() || c == ' ' {
+                return Err(Stop::Unspec);
+            }
+            c
+        };
+        // a character literal must be followed by a delimiter
+        match self.peek() {
+            None => Ok(RV::Char(ch)),
+            Some(b) if is_delim(b) && b != b'"' => Ok(RV::Char(ch)),
+            _ => Err(Stop::Unspec),
+        }
+    }
+
+    fn code_point(&self, st: usize, end: usize, radix: u32) -> R<char> {
+        let digits = std::str::from_utf8(&self.s[st..end]).unwrap().trim_start_matches('0');
+        if digits.len() > 8 {
+            return Err(Stop::Error);
+        }
+        let v = if digits.is_empty() { 0 } else { u32::from_str_radix(digits, radix).map_err(|_| Stop::Error)? };
+        char::from_u32(v).ok_or(Stop::Error)
+    }
+
+    fn r6rs_string(&mut self) -> R<RV> {
+        let mut out: Vec<u8> = Vec::new();
+        loop {
+            let b = self.peek().ok_or(Stop::Error)?;
+            self.i += 1;
+            match b {
+                b'"' => break,
+                b'\\' => {
+                    let e = self.peek().ok_or(Stop::Error)?;
+                    self.i += 1;
+                    match e {
+                        b'a' => out.push(7),
+                        b'b' => out.push(8),
+                        b't' => out.push(9),
+                        b'n' => out.push(10),
+                        b'r' => out.push(13),
+                        b'v' => out.push(11),
+                        b'f' => out.push(12),
+                        b'"' => out.push(b'"'),
+                        b'\\' => out.push(b'\\'),
+                        b'|' => out.push(b'|'),
+                        b'x' => {
+                            let st = self.i;
+                            while self.peek().map(|c| c.is_ascii_hexdigit()).unwrap_or(false) {
+                                self.i += 1;
+                            }
+                            match self.peek() {
+                                None => return Err(Stop::Error),
+                                Some(b';') => {}
+                                // a hex escape not closed by ';': malformed, but the documentation
+                                // does not say how
+                                Some(_) => return Err(Stop::Unspec),
+                            }
+                            if self.i == st {
+                                return Err(Stop::Unspec);
+                            }
+                            let c = self.code_point(st, self.i, 16)?;
+                            self.i += 1;
+                            let mut buf = [0u8; 4];
+                            out.extend_from_slice(c.encode_utf8(&mut buf).as_bytes());
+                        }
+                        // line continuations and unknown escapes: not documented
+                        _ => return Err(Stop::Unspec),
+                    }
+                }
+                _ => out.push(b),
+            }
+        }
+        if self.peek().map(|c| !is_delim(c)).unwrap_or(false) || self.peek() == Some(b'"') {
+            // a string glued to a following atom or string: token boundary not documented
+            return Err(Stop::Unspec);
+        }
+        match String::from_utf8(out) {
+            Ok(s) => Ok(RV::Str(s)),
+            Err(_) => Err(Stop::Error),
+        }
+    }
+
+    fn elisp_string(&mut self) -> R<RV> {
+        let mut out: Vec<u8> = Vec::new();
+        let mut seen_byte_escape = false;
+        let mut seen_multibyte = false;
+        loop {
+            let b = self.peek().ok_or(Stop::Error)?;
+            self.i += 1;
+            match b {
+                b'"' => break,
+                b'\\' => {
+                    let e = self.peek().ok_or(Stop::Error)?;
+                    self.i += 1;
+                    match e {
+                        b'"' => out.push(b'"'),
+                        b'\\' => out.push(b'\\'),
+                        b' ' => {}
+                        b'a' => out.push(7),
+                        b'b' => out.push(8),
+                        b't' => out.push(9),
+                        b'n' => out.push(10),
+                        b'v' => out.push(11),
+                        b'f' => out.push(12),
+                        b'r' => out.push(13),
+                        b'e' => out.push(27),
+                        b's' => out.push(b' '),
+                        b'd' => out.push(127),
+                        b'^' => return Err(Stop::Unspec),
+                        b'x' | b'0'..=b'7' => {
+                            let (st, radix) = if e == b'x' { (self.i, 16) } else { (self.i - 1, 8) };
+                            if radix == 16 {
+                                while self.peek().map(|c| c.is_ascii_hexdigit()).unwrap_or(false) {
+                                    self.i += 1;
+                                }
+                                if self.i == st {
+                                    return Err(Stop::Unspec);
+                                }
+                            } else {
+                                while self.peek().map(|c| (b'0'..=b'7').contains(&c)).unwrap_or(false) {
+                                    self.i += 1;
+                                }
+                                if self.i - st > 3 {
+                                    return Err(Stop::Unspec);
+                                }
+                            }
+                            let digits = std::str::from_utf8(&self.s[st..self.i]).unwrap().trim_start_matches('0');
+                            if digits.len() > 8 {
+                                return Err(Stop::Error);
+                            }
+                            let v = if digits.is_empty() { 0 } else { u32::from_str_radix(digits, radix).map_err(|_| Stop::Error)? };
+                            if v <= 255 {
+                                out.push(v as u8);
+                                seen_byte_escape = true;
+                            } else {
+                                let c = char::from_u32(v).ok_or(Stop::Error)?;
+                                let mut buf = [0u8; 4];
+                                out.extend_from_slice(c.encode_utf8(&mut buf).as_bytes());
+                                seen_multibyte = true;
+                            }
+                        }
+                        b'u' | b'U' => {
+                            let n = if e == b'u' { 4 } else { 8 };
+                            let st = self.i;
+                            for _ in 0..n {
+                                match self.peek() {
+                                    Some(c) if c.is_ascii_hexdigit() => self.i += 1,
+                                    None => return Err(Stop::Error),
+                                    _ => return Err(Stop::Unspec),
+                                }
+                            }
+                            let c = self.code_point(st, self.i, 16)?;
+                            let mut buf = [0u8; 4];
+                            out.extend_from_slice(c.encode_utf8(&mut buf).as_bytes());
+                            seen_multibyte = true;
+                        }
+                        b'N' => {
+                            if self.s.get(self.i..self.i + 3) != Some(b"{U+") {
+                                return Err(Stop::Unspec);
+                            }
+                            self.i += 3;
+                            let st = self.i;
+                            while self.peek().map(|c| c.is_ascii_hexdigit()).unwrap_or(false) {
+                                self.i += 1;
+                            }
+                            if self.i == st || self.peek() != Some(b'}') {
+                                return Err(Stop::Unspec);
+                            }
+                            let c = self.code_point(st, self.i, 16)?;
+                            self.i += 1;
+                            let mut buf = [0u8; 4];
+                            out.extend_from_slice(c.encode_utf8(&mut buf).as_bytes());
+                            seen_multibyte = true;
+                        }
+                        _ => return Err(Stop::Unspec),
+                    }
+                }
+                _ => {
+                    if b >= 0x80 {
+                        seen_multibyte = true;
+                    }
+                    out.push(b);
+                }
+            }
+        }
+        if self.peek().map(|c| !is_delim(c)).unwrap_or(false) || self.peek() == Some(b'"') {
+            return Err(Stop::Unspec);
+        }
+        if seen_byte_escape && !seen_multibyte {
+            return Ok(RV::Bytes(out));
+        }
+        match String::from_utf8(out) {
+            Ok(s) => Ok(RV::Str(s)),
+            Err(_) => Err(Stop::Error),
+        }
+    }
+
+    fn atom(&mut self) -> R<RV> {
+        let start = self.i;
+        let end = self.token_end(start);
+        if end == start {
+            return Err(Stop::Error);
+        }
+        let tok = &self.s[start..end];
+        if self.s.get(end) == Some(&b'"') {
+            return Err(Stop::Unspec);
+        }
+        if tok[1..].iter().any(|c| UNSPEC_INNER.contains(c)) || tok[0] == b'|' {
+            return Err(Stop::Unspec);
+        }
+        let t = match std::str::from_utf8(tok) {
+            Ok(t) => t,
+            Err(_) => return Err(Stop::Error),
+        };
+        self.i = end;
+        // rule 5
+        if let Some(lit) = decimal_literal(t) {
+            return match number_value(lit) {
+                // a literal too large for a double: with leading-digit symbols enabled the
+                // documentation does not say whether it is an error or a symbol
+                Err(Stop::Error) if self.po.digit && tok[0].is_ascii_digit() => Err(Stop::Unspec),
+                r => r,
+            };
+        }
+        let b0 = tok[0];
+        // a sign followed by a digit that is not a literal (+5x, -1a): not documented
+        if (b0 == b'+' || b0 == b'-') && tok.len() > 1 && tok[1].is_ascii_digit() {
+            return Err(Stop::Unspec);
+        }
+        // rule 6
+        let pre = self.po.kw & KW_PREFIX != 0 && b0 == b':';
+        let post = self.po.kw & KW_POSTFIX != 0 && tok[tok.len() - 1] == b':';
+        if pre && post {
+            return Err(Stop::Unspec);
+        }
+        if pre || post {
+            let name = if pre { &t[1..] } else { &t[..t.len() - 1] };
+            if name.is_empty() {
+                return Err(Stop::Unspec);
+            }
+            let digit_name = name.as_bytes()[0].is_ascii_digit();
+            if digit_name {
+                // digit-initial keyword names: only meaningful with the leading-digit option,
+                // and even then not documented for keywords
+                return Err(Stop::Unspec);
+            }
+            return match identifier_class(name, false) {
+                IdClass::Yes => {
+                    // a name that itself begins or ends with ':' has a second reading
+                    Ok(RV::kw(name))
+                }
+                _ => Err(Stop::Unspec),
+            };
+        }
+        // rule 7
+        if t == "nil" {
+            return Ok(match self.po.nil {
+                0 => RV::sym("nil"),
+                1 => RV::Null,
+                _ => RV::Nil,
+            });
+        }
+        if t == "t" {
+            return Ok(if self.po.t == 0 { RV::sym("t") } else { RV::Bool(true) });
+        }
+        // rule 8
+        if b0.is_ascii_digit() {
+            if !self.po.digit {
+                return Err(Stop::Error);
+            }
+            // the rest must be made of ordinary constituents
+            let rest_ok = t.chars().all(|c| c.is_ascii_alphanumeric() || "!$%&*/:<=>?@^_~+-.".contains(c) || (!c.is_ascii() && c.is_alphabetic()));
+            return if rest_ok { Ok(RV::sym(t)) } else { Err(Stop::Unspec) };
+        }
+        // rule 10
+        if t == "." {
+            return Err(Stop::Error);
+        }
+        // rule 9
+        match identifier_class(t, self.po.chr == 1) {
+            IdClass::Yes => Ok(RV::sym(t)),
+            _ => Err(Stop::Unspec),
+        }
+    }
+}
+
+/// Read exactly one datum (with surrounding trivia), like `from_slice_custom`.
+pub fn read_one(input: &[u8], po: &PO) -> RR {
+    let mut rd = Rd { s: input, i: 0, po };
+    let v = match rd.datum(0) {
+        Ok(v) => v,
+        Err(Stop::Error) => return RR::Error,
+        Err(Stop::Unspec) => return RR::Unspecified,
+    };
+    rd.skip_trivia();
+    if rd.i != input.len() {
+        // something follows the datum: an error for the single-datum entry points — unless what
+        // follows is itself outside the documented token boundaries
+        let mut probe = Rd { s: input, i: rd.i, po };
+        return match probe.datum(0) {
+            Err(Stop::Unspec) => RR::Unspecified,
+            _ => RR::Error,
+        };
+    }
+    RR::Value(v)
+}
+
+/// Read a stream of datums until the end; stops at the first Error / Unspecified.
+pub fn read_all(input: &[u8], po: &PO) -> (Vec<RV>, Option<RR>) {
+    let mut rd = Rd { s: input, i: 0, po };
+    let mut out = Vec::new();
+    loop {
+        rd.skip_trivia();
+        if rd.i >= input.len() {
+            return (out, None);
+        }
+        match rd.datum(0) {
+            Ok(v) => out.push(v),
+            Err(Stop::Error) => return (out, Some(RR::Error)),
+            Err(Stop::Unspec) => return (out, Some(RR::Unspecified)),
+        }
+    }
+}
+
+/// Token boundaries of a well-formed text, for trivia-insertion experiments (C11, C12): byte
+/// offsets at which trivia may be inserted without changing the token sequence. Returns None if
+/// the text is outside the documented grammar.
+pub fn token_boundaries(input: &[u8], po: &PO) -> Option<Vec<usize>> {
+    if !matches!(read_one(input, po), RR::Value(_)) {
+        return None;
+    }
+    let mut out = vec![0usize];
+    let mut i = 0usize;
+    let n = input.len();
+    let rd = Rd { s: input, i: 0, po };
+    while i < n {
+        let b = input[i];
+        if is_trivia_byte(b) {
+            i += 1;
+            out.push(i);
+            continue;
+        }
+        if b == b';' {
+            while i < n && input[i] != b'\n' {
+                i += 1;
+            }
+            if i < n {
+                i += 1;
+            }
+            out.push(i);
+            continue;
+        }
+        match b {
+            b'(' | b')' | b'[' | b']' | b'\'' | b'`' => {
+                i += 1;
+            }
+            b',' => {
+                i += 1;
+                if i < n && input[i] == b'@' {
+                    i += 1;
+                }
+            }
+            b'"' => {
+                i += 1;
+                while i < n && input[i] != b'"' {
+                    if input[i] == b'\\' {
+                        i += 1;
+                    }
+                    i += 1;
+                }
+                i += 1;
+            }
+            b'#' if input.get(i + 1) == Some(&b'(') => {
+                i += 2;
+            }
+            b'#' if input.get(i + 1) == Some(&b'\\') => {
+                // char: "#\" scalar tail
+                let (_, len) = rd.scalar_at(i + 2).ok()?;
+                i = rd.token_end(i + 2 + len);
+            }
+            b'?' if po.chr == 1 => {
+                // elisp char: '?' (escape | scalar)
+                i += 1;
+                if input.get(i) == Some(&b'\\') {
+                    i += 1;
+                    let (e, len) = rd.scalar_at(i).ok()?;
+                    i += len;
+                    if e == 'N' {
+                        while i < n && input[i] != b'}' {
+                            i += 1;
+                        }
+                        i += 1;
+                    } else if e == '^' {
+                        i += 1;
+                    } else if e == 'x' || e == 'u' || e == 'U' || e.is_ascii_digit() {
+                        while i < n && input[i].is_ascii_hexdigit() {
+                            i += 1;
+                        }
+                    }
+                } else {
+                    let (_, len) = rd.scalar_at(i).ok()?;
+                    i += len;
+                }
+            }
+            _ => {
+                let end = rd.token_end(i);
+                // "#u8(" keeps its parenthesis
+                if (&input[i..end] == b"#u8" || &input[i..end] == b"#vu8") && input.get(end) == Some(&b'(') {
+                    i = end + 1;
+                } else {
+                    i = end;
+                }
+            }
+        }
+        if i > n {
+            return None;
+        }
+        out.push(i);
+    }
+    out.sort();
+    out.dedup();
+    Some(out)
+}
+
+/// Is `name` plain in the dialect of (printer keyword spelling, parser options), as a symbol and
+/// as a keyword (DESIGN Appendix B)?
+pub fn plain_symbol(name: &str, r: &PO) -> bool {
+    if identifier_class(name, r.chr == 1) != IdClass::Yes {
+        return false;
+    }
+    if name == "nil" && r.nil != 0 {
+        return false;
+    }
+    if name == "t" && r.t != 0 {
+        return false;
+    }
+    if r.kw & KW_PREFIX != 0 && name.starts_with(':') {
+        return false;
+    }
+    if r.kw & KW_POSTFIX != 0 && name.ends_with(':') {
+        return false;
+    }
+    let c0 = name.chars().next().unwrap();
+    if c0.is_ascii_digit() || c0 == '#' {
+        return false;
+    }
+    if name.bytes().any(|b| UNSPEC_INNER.contains(&b)) {
+        return false;
+    }
+    // must not read as a number
+    decimal_literal(name).is_none()
+}
+
+/// `kw_print`: 0 "#:name", 1 ":name", 2 "name:".
+pub fn plain_keyword(name: &str, kw_print: u8, r: &PO) -> bool {
+    if identifier_class(name, false) != IdClass::Yes {
+        return false;
+    }
+    if name.bytes().any(|b| UNSPEC_INNER.contains(&b)) {
+        return false;
+    }
+    let c0 = name.chars().next().unwrap();
+    if c0.is_ascii_digit() {
+        return false;
+    }
+    match kw_print {
+        0 => true,
+        1 => {
+            // printed ":name": no second reading as "…:" postfix keyword
+            !(r.kw & KW_POSTFIX != 0 && name.ends_with(':'))
+        }
+        _ => {
+            // printed "name:"
+            if r.kw & KW_PREFIX != 0 && name.starts_with(':') {
+                return false;
+            }
+            // the printed token must not start like another token class
+            if r.chr == 1 && name.starts_with('?') {
+                return false;
+            }
+            // "+5:" style: sign followed by digit
+            let b = name.as_bytes();
+            if (b[0] == b'+' || b[0] == b'-') && b.len() > 1 && b[1].is_ascii_digit() {
+                return false;
+            }
+            true
+        }
+    }
+}
+
+/// Compare the model's reading with the implementation's value. NumLit nodes are judged by the
+/// number oracle. Returns Err(reason) on mismatch.
+pub fn matches_value(model: &RV, actual: &RV, nofast: bool) -> Result<(), String> {
+    match (model, actual) {
+        (RV::NumLit(lit), a) => crate::model::num::literal_matches(lit, a, nofast),
+        (RV::Cons(_, _), RV::Cons(_, _)) => {
+            let (mut m, mut a) = (model, actual);
+            loop {
+                match (m, a) {
+                    (RV::Cons(ma, md), RV::Cons(aa, ad)) => {
+                        matches_value(ma, aa, nofast)?;
+                        m = md;
+                        a = ad;
+                    }
+                    (x, y) => return matches_value(x, y, nofast),
+                }
+            }
+        }
+        (RV::Vector(ms), RV::Vector(az)) => {
+            if ms.len() != az.len() {
+                return Err(format!("vector length {} vs {}", ms.len(), az.len()));
+            }
+            for (m, a) in ms.iter().zip(az.iter()) {
+                matches_value(m, a, nofast)?;
+            }
+            Ok(())
+        }
+        (m, a) => {
+            if m == a {
+                Ok(())
+            } else {
+                Err(format!("reference reader: {}, implementation: {}", m, a))
+            }
+        }
+    }
+}
